@@ -98,6 +98,14 @@ class HistEngine(EngineBase):
                 toks |= set(_re.findall(r"\bHEX_REG_ALIAS_\w+", p))
             for t in toks:
                 themes.setdefault(t, []).append(n)
+        for text in self.catalogue_ok:
+            toks = set(_re.findall(r"\b([A-Za-z_]\w*)\s*\(", text)) | set(_re.findall(r"\bHEX_REG_ALIAS_\w+", text))
+            if "({" in text:
+                toks.add("stmt-expr")
+            if "?" in text:
+                toks.add("ternary")
+            for t in toks:
+                themes.setdefault(t, []).append(("cat", text))
         self.themes = {t: v for t, v in sorted(themes.items()) if 2 <= len(v)}
         self.theme_keys = sorted(self.themes)
         self._theme = None
@@ -137,6 +145,8 @@ class HistEngine(EngineBase):
         """-> (name, parts, origin)"""
         if self._theme is not None and ch.chance(1, 3, "themed"):
             n = ch.choice(self.themes[self._theme], "theme-insn")
+            if isinstance(n, tuple):
+                return "gen_" + stable_hash(n[1])[:8], [n[1]], "catalogue"
             return n, list(self.beh[n]), "corpus"
         k = ch.weighted([("corpus", 10), ("compound", 3 if self.compound_names else 0), ("part", 2 if self.compound_names else 0),
                          ("cat", 6 if self.catalogue_ok else 0), ("fail", want_fail_weight if self.failing_ok else 0),
